@@ -124,7 +124,9 @@ class PairDomain(Domain):
         if f.cls is not None and f.cls.name != 'EventDispatcher':
             summ = self.analyse(f, r[1])
             if summ is not None and summ.has_sites:
-                return None
+                if not getattr(summ, 'inline_only', False):
+                    return None
+                summ.inlined = True
         return r
 
     def for_counts(self, st, node, itersym):
@@ -406,7 +408,8 @@ class PairDomain(Domain):
                 return
         if d is not None and d.startswith('self.') and d.count('.') == 1:
             summ = self.summaries.get(d.split('.')[1])
-            if summ is not None and summ.has_sites:
+            if summ is not None and summ.has_sites and not getattr(
+                    summ, 'inline_only', False):
                 self._apply_summary(st, summ, cn, fn, ev)
 
     def _apply_summary(self, st, summ, cn, fn, ev):
@@ -554,6 +557,7 @@ def analyse_writers(program, rep):
     inprogress = set()
     stats = {}
     callers = {}
+    per_method = {}
 
     def analyse(m, c):
         if m.name in summaries:
@@ -565,6 +569,7 @@ def analyse_writers(program, rep):
         w = Walker(program, dom)
         exits = w.run(m, c)
         summ = Summary(m)
+        results_m = {}
         npaths = 0
         for ex in exits:
             if ex.kind == 'raise':
@@ -587,9 +592,11 @@ def analyse_writers(program, rep):
             summ.exits.append({'entry': entry, 'final': final,
                                'rows_gone': set(st.data['rows_gone'])})
             if st.data['ops'] or st.data['issues']:
-                exit_check(dom, st, results, m.qualname)
-        for fn, node, why in dom.problems:
-            problems.append((fn, node, why))
+                exit_check(dom, st, results_m, m.qualname)
+        private = m.name.startswith('_') and not m.name.startswith('__')
+        summ.inline_only = private and (any(
+            v['bad'] for v in results_m.values()) or bool(dom.problems))
+        per_method[m.name] = (summ, results_m, list(dom.problems))
         stats[m.qualname] = {'paths': npaths, 'cut': w.cuts,
                              'writes_tables': summ.has_sites}
         inprogress.discard(m.name)
@@ -600,20 +607,17 @@ def analyse_writers(program, rep):
         for m in c.methods.values():
             if m.kind == 'method':
                 analyse(m, c)
-    # A private helper that performs one half of a paired update is judged
-    # through its callers (which see its summary): its own exit discrepancy
-    # is not a violation when every use of it is inside a World method.
-    for (rule, fn, text, line), r in list(results.items()):
-        if rule != 'pair' or not r['bad'] or not text.startswith('pair ('):
+    # A private helper that performs one half of a paired update (its own
+    # analysis reports a discrepancy) is judged in the context of its
+    # callers, which inline it instead of using a summary.
+    for name, (summ, results_m, problems_m) in per_method.items():
+        if summ.inline_only and getattr(summ, 'inlined', False):
             continue
-        mname = fn.split('.')[-1]
-        if not mname.startswith('_') or mname.startswith('__'):
-            continue
-        users = [k for k, v in callers.items() if mname in v]
-        if users:
-            r['ok'] += len(r['bad'])
-            r['bad'] = []
-            r['deferred'] = users
+        for k, v in results_m.items():
+            r = results.setdefault(k, {'ok': 0, 'bad': []})
+            r['ok'] += v['ok']
+            r['bad'] += v['bad']
+        problems.extend(problems_m)
     site_of = lambda fn: f'{world.module.relpath}:{fn}'
     nwriters = sum(1 for v in stats.values() if v['writes_tables'])
     rep.count('paths', sum(v['paths'] for v in stats.values()))
@@ -743,35 +747,60 @@ def check_readers(program, rep):
     # entities
     f = program.method('World', 'entities')
     body = strip_docstring(f.node.body)
-    ok = False
-    why = 'entities is not tuple(<e for e in _entities if e not in dead>)'
+    verdict = None      # True ok / False wrong / None shape unknown
+    why = 'the shape of `entities` is not understood'
     if len(body) == 1 and isinstance(body[0], ast.Return):
         v = body[0].value
         if isinstance(v, ast.Call) and dotted(v.func) in ('tuple', 'list') \
                 and len(v.args) == 1:
             v = v.args[0]
+        var = None
+        tests = None
         if isinstance(v, (ast.GeneratorExp, ast.ListComp)) and len(
                 v.generators) == 1:
             g = v.generators[0]
-            var = norm(g.target)
             base, view = unwrap_iter(g.iter)
-            if dotted(base) == E and view == 'keys' and norm(v.elt) == var:
-                try:
-                    good = True
-                    for ind in (False, True):
-                        env = {(var, DEAD): ind, (var, E): True}
-                        keep = all(_bool_eval(c, env) for c in g.ifs)
-                        if keep != (not ind):
-                            good = False
-                    ok = good
-                    if not good:
-                        why = ('the filter of `entities` does not keep exactly '
-                               'the entities that are not awaiting deletion')
-                except AnalysisError as ex:
-                    why = str(ex)
-    rep.check(ok, 'C01.read', f.where, body[0] if body else f.node.name,
-              '`entities` lists the keys of _entities that are not awaiting '
-              'deletion', why, line=f.node.lineno)
+            if dotted(base) == E and view == 'keys' and norm(v.elt) == norm(
+                    g.target):
+                var, tests = norm(g.target), list(g.ifs)
+        elif isinstance(v, ast.Call) and dotted(v.func) in (
+                'filter', 'filterfalse', 'itertools.filterfalse') \
+                and len(v.args) == 2 and dotted(unwrap_iter(v.args[1])[0]) \
+                == E:
+            neg = not dotted(v.func).endswith('filterfalse')
+            p0 = v.args[0]
+            var = '_e'
+            if norm(p0) == f'{DEAD}.__contains__':
+                t = ast.parse(f'_e in {DEAD}', mode='eval').body
+            elif isinstance(p0, ast.Lambda) and len(p0.args.args) == 1:
+                var = p0.args.args[0].arg
+                t = p0.body
+            else:
+                t = None
+            if t is not None:
+                tests = [t if neg else ast.UnaryOp(ast.Not(), t)]
+        if tests is not None:
+            try:
+                good = True
+                for ind in (False, True):
+                    env = {(var, DEAD): ind, (var, E): True}
+                    keep = all(_bool_eval(c, env) for c in tests)
+                    if keep != (not ind):
+                        good = False
+                verdict = good
+                if not good:
+                    why = ('the filter of `entities` does not keep exactly '
+                           'the entities that are not awaiting deletion')
+            except AnalysisError as ex:
+                why = str(ex)
+    if verdict is None:
+        rep.inconclusive('C01.read', f.where, body[0] if body
+                         else f.node.name, why, line=f.node.lineno)
+    else:
+        rep.check(verdict, 'C01.read', f.where,
+                  body[0] if body else f.node.name,
+                  '`entities` lists the keys of _entities that are not '
+                  'awaiting deletion', why, line=f.node.lineno)
     # get_components
     f = program.method('World', 'get_components')
     p = f.params()[1]
